@@ -37,7 +37,7 @@ META = {
         'leaves as viewport: for it the union of the old viewport and the requested rectangle (+border) is allowed and the viewport '
         'is then reset by the harness. A drawing routine that draws too LITTLE (e.g. an exclusive upper bound) is not a C30 refutation '
         '(C31 sees it). PAINT statements ended by the harness step budget are discarded (counted in paint_budget_breaks). A statement that '
-        'uses more than 20 CPU-seconds (process CPU time, not wall time) is reported as hang:statement-exceeded-cpu-budget:<KIND> and the '
+        'uses more than 20 CPU-seconds (process CPU time, not wall time) is abandoned and counted (statements_abandoned_after_cpu_limit), not judged: slow is not wrong; the '
         'session is replaced: the frame condition cannot be evaluated for it.'),
     'rule': ('case = (mode, active/visible page, viewport, window, statement text); distinct by that tuple; every case is '
              'non-trivial (a statement that changes nothing because it is clipped away is exactly the interesting case); '
@@ -518,10 +518,12 @@ class Monitor(object):
                 code = g.trap(stmt)
         except (harness.Internal, gfx.StatementHang) as e:
             if gfx.is_hang(e):
-                res.violation('hang:statement-exceeded-cpu-budget:' + kind,
-                              '%s: %s did not finish within %d CPU-seconds (view=%r window=%r)' % (
-                                  g.mode['label'], stmt.decode('latin-1'), HANG_CPU_SECONDS, st.view, st.window), case)
-                res.count('statement_hangs')
+                # a CPU-time limit is not a verdict: a tiled PAINT over a noisy 640x350 page was measured to need 35
+                # CPU-seconds and still finish.  The statement is abandoned, counted and not judged (the session is
+                # replaced by the caller); an endless PAINT loop is ended by the harness step budget instead
+                # (paint_budget_breaks), because the fill calls wait() every few rows.
+                res.count('statements_abandoned_after_cpu_limit')
+                res.count('statements_abandoned_after_cpu_limit_' + kind)
                 err = harness.Internal(e, 'hang', '') if not isinstance(e, harness.Internal) else e
                 err.reported = True
                 raise err
